@@ -319,13 +319,13 @@ impl Session {
                                     if it.is_valid() {
                                         it.next();
                                     }
-                                    Ok(())
+                                    it.take_error().map_or(Ok(()), Err)
                                 }
                                 _ => {
                                     if it.is_valid() {
                                         it.prev();
                                     }
-                                    Ok(())
+                                    it.take_error().map_or(Ok(()), Err)
                                 }
                             };
                             let pos = if code.is_err() {
@@ -444,13 +444,13 @@ impl Session {
                                     if it.is_valid() {
                                         it.next();
                                     }
-                                    Ok(())
+                                    it.take_error().map_or(Ok(()), Err)
                                 }
                                 _ => {
                                     if it.is_valid() {
                                         it.prev();
                                     }
-                                    Ok(())
+                                    it.take_error().map_or(Ok(()), Err)
                                 }
                             };
                             let pos = if code.is_err() {
